@@ -68,6 +68,12 @@ def error_programs():
 def run(ctx):
     units = simcheck.standard_space(ctx.tier)
     cap = 20_000 if ctx.tier == "quick" else 400_000
+    big = [{"k": "step", "fn": {"bytes": 150_000}}]
+    for cname, cfg in (("tol1", {"tol_n": 1}), ("pct50", {"tol_pct": 50})):
+        p = {"name": f"oversized-par[{cname}]", "seq": [
+            {"k": "par", "cfg": cfg, "branches": [big, [{"k": "step", "fn": {"raise": "Boom", "msg": "x"}, "retry": "none"}], big]},
+            {"k": "wait", "s": 1}, {"k": "step", "fn": {"ret": "end"}}]}
+        units.append(({"program": p, "cfg": {"env_kinds": ["crash"]}}, {"crash": 1, "total": 1}, cap))
     for p in error_programs():
         units.append(({"program": p, "cfg": {"env_kinds": ["crash"]}},
                       {"crash": 1, "total": 1} if ctx.tier == "quick" else {"crash": 2, "total": 2}, cap))
